@@ -3,6 +3,8 @@ CONSTANTS
   B = 2
   MaxArr = 4
   Srcs = {1}
+  LevelTriggered = FALSE
+  MaxBatches = 1000
   DrainExitsOnEmptyBatch = TRUE
 VIEW mview
 ACTION_CONSTRAINT Emit
